@@ -3,6 +3,7 @@ package main
 
 import (
 	"encoding/json"
+	"sort"
 	"flag"
 	"fmt"
 	"os"
@@ -18,10 +19,12 @@ func main() {
 	mem := flag.Bool("mem", false, "track memory")
 	nomerge := flag.Bool("nomerge", false, "disable merging")
 	logf := flag.String("log", "", "solver log file")
+	full := flag.Bool("json", false, "print the raw result as JSON")
+	dir := flag.String("dir", "/verif/harness", "harness module directory")
 	flag.Parse()
 	args := flag.Args()
 	t0 := time.Now()
-	p, err := sym.Load("/verif/harness", "./h")
+	p, err := sym.Load(*dir, "./h")
 	if err != nil {
 		fmt.Fprintln(os.Stderr, err)
 		os.Exit(2)
@@ -37,12 +40,45 @@ func main() {
 		sol.Log = f
 	}
 	var params []int
+	name := ""
 	for _, a := range args[1:] {
-		v, _ := strconv.Atoi(a)
+		v, err := strconv.Atoi(a)
+		if err != nil {
+			name = a
+			continue
+		}
 		params = append(params, v)
 	}
-	res := sym.RunCase(p, sol, sym.CaseSpec{Pkg: "verif/harness/h", Harness: args[0], Params: params, FP: *fp, Cert: *cert, TrackMem: *mem, NoMerge: *nomerge})
+	res := sym.RunCase(p, sol, sym.CaseSpec{Pkg: "verif/harness/h", Harness: args[0], Name: name, Params: params, FP: *fp, Cert: *cert, TrackMem: *mem, NoMerge: *nomerge})
 	res.Funcs = nil
-	b, _ := json.MarshalIndent(res, "", " ")
-	fmt.Println(string(b))
+	if *full {
+		b, _ := json.MarshalIndent(res, "", " ")
+		fmt.Println(string(b))
+		return
+	}
+	fmt.Printf("case %s: paths=%d steps=%d outcomes=%v merges=%d/%d aborts queries=%d (unsat %d sat %d unknown %d) wall=%.2fs\n", res.Spec.ID(), res.Paths, res.Steps, res.Outcomes, res.Merges, res.MergeAborts, res.Stats.Queries, res.Stats.Unsat, res.Stats.Sat, res.Stats.Unknown, res.Wall.Seconds())
+	if res.Incomplete != "" {
+		fmt.Println("  INCOMPLETE:", res.Incomplete)
+	}
+	var labels []string
+	for l := range res.Asserts {
+		labels = append(labels, l)
+	}
+	sort.Strings(labels)
+	for _, l := range labels {
+		a := res.Asserts[l]
+		fmt.Printf("  assert %-24s paths=%d holds=%d violated=%d unknown=%d trivial=%d\n", l, a.Paths, a.Holds, a.Violated, a.Unknown, a.Trivial)
+	}
+	for l, n := range res.ReachSeen {
+		fmt.Printf("  reach %s: sat on %d/%d paths\n", l, res.ReachSat[l], n)
+	}
+	if res.Certs > 0 {
+		fmt.Printf("  certificate: %d/%d issued events=%d edges=%d pairs=%d notes=%v\n", res.CertIssued, res.Certs, res.CertEvents, res.CertEdges, res.CertPairs, res.CertNotes)
+	}
+	for _, v := range res.Violations {
+		fmt.Printf("  VIOLATION kind=%s label=%s known=%q detail=%s model=%v\n", v.Kind, v.Label, v.Known, v.Detail, v.Model)
+	}
+	for k, v := range res.Info {
+		fmt.Printf("  info %s=%s\n", k, v)
+	}
 }
